@@ -199,21 +199,32 @@ def concrete_playback(unit, harness):
     cmdline, out, rc, wall = cargo_kani(unit, [harness], 600, 1,
                                         extra=["-Z", "concrete-playback", "--concrete-playback=print"],
                                         log_name="kani_%s_%s_playback.log" % (unit, harness))
-    # the generated test contains:   let concrete_vals: Vec<Vec<u8>> = vec![ // comment \n vec![1, 2], ...
-    m = re.search(r"let concrete_vals: Vec<Vec<u8>> = vec!\[(.*?)\];\s*kani::concrete_playback_run", out, re.S)
-    if not m:
+    # one generated test per failed check / satisfied cover:
+    #   /// Check for `assertion`: ""<label>""  ...  let concrete_vals: Vec<Vec<u8>> = vec![ // v \n vec![..], ..];
+    blocks = re.findall(r"/// Check for `(\w+)`: \"+(.*?)\"+\s*\n(.*?)kani::concrete_playback_run", out, re.S)
+    chosen = None
+    for kind, label, body in blocks:
+        if kind == "cover":
+            continue
+        m = re.search(r"let concrete_vals: Vec<Vec<u8>> = vec!\[(.*)\];", body, re.S)
+        if not m:
+            continue
+        inner_all = m.group(1)
+        vecs = []
+        for vm in re.finditer(r"vec!\[([^\]]*)\]", inner_all):
+            inner = vm.group(1).strip()
+            vecs.append([int(x) for x in inner.split(",") if x.strip()] if inner else [])
+        comments = re.findall(r"//\s*(.+)", inner_all)
+        chosen = {"bytes": vecs, "values_as_printed": comments, "check_kind": kind, "failed_check": label}
+        break
+    if chosen is None:
         return None, out
-    body = m.group(1)
-    vecs = []
-    for vm in re.finditer(r"vec!\[([^\]]*)\]", body):
-        inner = vm.group(1).strip()
-        vecs.append([int(x) for x in inner.split(",") if x.strip()] if inner else [])
-    comments = re.findall(r"//\s*(.+)", body)
-    return {"bytes": vecs, "values_as_printed": comments}, out
+    return chosen, out
 
 
 def replay_on_real_code(unit, harness, bytes_, replay_path):
     """cargo test (repository toolchain) in the scratch copy; True if the real code violates the clause."""
+    os.makedirs(os.path.dirname(replay_path), exist_ok=True)
     with open(replay_path + ".input.json", "w") as f:
         json.dump({"harness": harness, "bytes": bytes_}, f)
     env = dict(os.environ, CARGO_NET_OFFLINE="true", VERIF_REPLAY_FILE=replay_path + ".input.json")
@@ -227,14 +238,14 @@ def replay_on_real_code(unit, harness, bytes_, replay_path):
     except subprocess.TimeoutExpired:
         return None, "replay build timed out"
     out = p.stdout + "\n" + p.stderr
-    if "VERIF-REPLAY-VIOLATED" in out:
-        m = re.search(r"VERIF-REPLAY-VIOLATED ([^\n]*)", out)
-        return True, m.group(0)
-    if "VERIF-REPLAY-OUTSIDE-ASSUMPTIONS" in out or "VERIF-REPLAY-EXHAUSTED" in out:
+    if "VERIF-REPLAY//VIOLATED" in out:
+        m = re.search(r"VERIF-REPLAY//VIOLATED ([^\n]*)", out)
+        return True, "real code violates: " + m.group(1)
+    if "VERIF-REPLAY//OUTSIDE-ASSUMPTIONS" in out or "VERIF-REPLAY//EXHAUSTED" in out:
         return None, "counterexample could not be decoded (outside assumptions)"
     if "test result: ok" in out and "1 passed" in out:
         return False, "real code satisfies the clause on the verifier's input (spurious counterexample)"
-    if "panicked at" in out:
+    if "panicked at" in out and "test result: FAILED" in out:
         m = re.search(r"panicked at ([^\n]*\n[^\n]*)", out)
         return True, "real code panicked: " + (m.group(1) if m else "")
     return None, "replay inconclusive: " + out[-1500:]
